@@ -293,10 +293,10 @@ func runC05(c *h.Ctx) {
 	// a type-1 issuer whose key id ends like the type-2 issuer's: collision ACROSS types
 	t1cross := newC05Type1WithLastByte(c, "t1-last-byte-of-t2", t2.kid[31])
 	configs := map[string][]*c05Issuer{
-		"both":                      {t1, t2},
-		"both-reversed":             {t2, t1},
-		"type1-only":                {t1},
-		"type2-only":                {t2},
+		"both":                       {t1, t2},
+		"both-reversed":              {t2, t1},
+		"type1-only":                 {t1},
+		"type2-only":                 {t2},
 		"two-type1-shared-last-byte": {t1share, t1, t2},
 		"shared-last-byte-reversed":  {t1, t1share, t2},
 		"cross-type-last-byte":       {t2, t1cross, t1},
